@@ -71,8 +71,17 @@ def eval_solid(case):
         except Exception as e:
             bad("construct", f"rejected: {e}")
             continue
-        # minimal bounding sphere (definition check)
+        # minimal bounding sphere (definition check); the solver is randomised and retries: degenerate vertex sets are asked
+        # again under many states of the global generators
         try:
+            for rep in range(case.get("repeat", 0)):
+                random.seed(1000 * case.get("seed", 0) + rep)
+                np.random.seed(1000 * case.get("seed", 0) + rep)
+                before = len(out)
+                check_min_ball("minimal_bounding_sphere", P.minimal_bounding_sphere, verts, size, bad, 3)
+                if len(out) > before:
+                    out[-1][0]["tags"].append("repeated_query")
+                    break
             check_min_ball("minimal_bounding_sphere", P.minimal_bounding_sphere, verts, size, bad, 3)
             if abs(P.minimal_bounding_sphere_radius - P.minimal_bounding_sphere.radius) > 1e-6 * size:
                 bad("minimal_bounding_sphere_radius", "radius getter disagrees with the sphere")
